@@ -1,6 +1,7 @@
 package graph
 
 import (
+	"sort"
 	"strings"
 
 	"github.com/vektah/gqlparser/v2/ast"
@@ -73,3 +74,65 @@ func Harness_C01_exec() {
 	zzsym.Assert(w.recovers == 0, "the recover hook is not invoked when nothing panicked")
 	zzsym.Reach("c01.compared")
 }
+
+func Setup_C01_subscription() { probeSetup() }
+
+var c01SubQueries = []string{
+	`subscription { watch { id name best { id } boss { id } } }`,
+	`subscription { strictWatch { id best { id boss { id } } friends { id } } }`,
+	`subscription($v1: Boolean!) { w: watch { id ...F @include(if: $v1) } } fragment F on User { age pet { __typename } }`,
+}
+
+// subscriptionRun: a subscription whose resolver emits 0..2 events (or fails
+// to subscribe): every event is answered by its own response whose data and
+// errors are what the execution algorithm prescribes for that event's value
+// (reference: the root field answered with the event), a fault while
+// resolving one event's fields does not end the stream or leak into the next
+// event's response, and after the last event the response function returns nil.
+func subscriptionRun(panics bool, budget int) {
+	qi := zzsym.Choice("query", len(c01SubQueries))
+	doc := mustLoad(c01SubQueries[qi])
+	op := doc.Operations[0]
+	vars := map[string]any{}
+	if qi == 2 {
+		vars["v1"] = zzsym.Bool("v1")
+	}
+	w := newWorld(budget, panics)
+	snapshotData = true
+	got := runOp(w, doc, op, vars)
+	snapshotData = false
+	field := op.SelectionSet[0].(*ast.Field).Name
+	if w.subEvents == nil && len(got.resps) == 1 && len(got.resps[0].Errors) > 0 && got.resps[0].Data == nil {
+		// subscribing failed: one response with the error, no data
+		zzsym.Assert(len(got.resps[0].Errors) == 1, "a failed subscription is answered with one error")
+		zzsym.Assert(w.recovers == w.raised, "the recover hook runs exactly once per panic")
+		zzsym.Reach("c01.sub.failed")
+		return
+	}
+	zzsym.Assert(len(got.resps) == len(w.subEvents), "one response per event, then the stream ends")
+	for k, r := range got.resps {
+		if k >= len(w.subEvents) {
+			break
+		}
+		ev := w.subEvents[k]
+		if ev == nil {
+			w.outs["/Subscription."+field] = ref.Out{K: ref.KNull}
+		} else {
+			w.outs["/Subscription."+field] = ref.Out{Obj: &ref.Obj{Type: "User", ID: ev.ID, Name: ev.Name, Age: ev.Age}}
+		}
+		want := ref.Execute(pSchema, doc, op, vars, w)
+		var errs []string
+		for _, e := range r.Errors {
+			errs = append(errs, pathString(e.Path))
+		}
+		sort.Strings(errs)
+		zzsym.Event("event", string(r.Data), strings.Join(errs, " "), "want", want.Data, strings.Join(want.Errors, " "))
+		zzsym.Assert(string(r.Data) == want.Data, "each event's data is what the execution algorithm prescribes for that event")
+		zzsym.Assert(sameErrors(errs, want.Errors), "each event's response carries exactly the errors of that event")
+	}
+	zzsym.Assert(w.recovers == w.raised, "the recover hook runs exactly once per panic")
+	zzsym.Reach("c01.sub.compared")
+}
+
+// Harness_C01_subscription: outcomes in {value, null, error}.
+func Harness_C01_subscription() { subscriptionRun(false, zzsym.Param("budget", 2)) }
